@@ -229,7 +229,21 @@ func TestVerifC07Crowd(t *testing.T) {
 	t0 := time.Now()
 	for h := 0; h < hosts; h++ {
 		from := netip.AddrFrom16([16]byte{0xfe, 0x80, 8: 7, 13: byte(h >> 16), 14: byte(h >> 8), 15: byte(h)}).WithZone("v0")
-		v.cur().readC <- vRead{msg: &ndp.RouterSolicitation{}, hop: ndp.HopLimit, from: from}
+		// solicitations as hosts send them: bare, with their link-layer address, with options a router does not know
+		// (a SEND nonce, a vendor option) -- RFC 4861 4.1: unrecognised options are ignored, the solicitation is valid
+		rsm := &ndp.RouterSolicitation{}
+		switch h % 5 {
+		case 1:
+			rsm.Options = []ndp.Option{&ndp.LinkLayerAddress{Direction: ndp.Source, Addr: net.HardwareAddr{2, 0, 0, byte(h >> 16), byte(h >> 8), byte(h)}}}
+		case 2:
+			rsm.Options = []ndp.Option{&ndp.RawOption{Type: 14, Length: 1, Value: []byte{1, 2, 3, 4, 5, 6}}}
+		case 3:
+			rsm.Options = []ndp.Option{&ndp.LinkLayerAddress{Direction: ndp.Source, Addr: net.HardwareAddr{2, 0, 0, 1, 2, 3}},
+				&ndp.RawOption{Type: 200, Length: 2, Value: make([]byte, 14)}}
+		case 4:
+			rsm.Options = []ndp.Option{&ndp.LinkLayerAddress{Direction: ndp.Target, Addr: net.HardwareAddr{2, 0, 0, 1, 2, 4}}}
+		}
+		v.cur().readC <- vRead{msg: rsm, hop: ndp.HopLimit, from: from}
 	}
 	fed := time.Since(t0)
 	received := func() float64 {
